@@ -29,19 +29,19 @@ CLAIMED = {
         ref='4/C04'),
     'C05': dict(
         text='Programs of a forwarding grammar are generated production by production from solver decisions, compiled and given to the real sigtools.signature; when the result is not the plain signature z3 decides over all call shapes that every accepted non-colliding call executes (model re-checked by really calling the generated function), or, for tainted / foreign / doubled stars, that the callee\'s parameters are not advertised and soundness holds for some contents of that star.',
-        note='Bounds: quick = sum of four focus groups (star forms x site shapes; 16 contexts x 6 routes; 44 taint / non-taint statements before/after; unresolvable callees) with bare outer and callee <=1 named parameter, plus positional-only outers on self/partial routes; thorough = larger def-lists, 2 names, full cross product (time-limited).' + TRUST + ' Ground-truth semantics of the grammar productions are the generator\'s (validated by real execution of witnesses).',
+        note='Bounds: quick = sum of four focus groups (star forms x site shapes x 5 argument expressions; 30 contexts (except/else/finally/for/while/match bodies, nested defs and lambdas whose parameter of any kind shadows a star) x 7 routes; 44 taint / non-taint statements before/after; unresolvable callees) with bare outer and callee <=1 named parameter, plus positional-only outers on self/partial routes and argument expressions inside deferred calls; thorough = larger def-lists, 2 names, full cross product (time-limited).' + TRUST + ' Ground-truth semantics of the grammar productions are the generator\'s (validated by real execution of witnesses).',
         ref='4/C05'),
     'C06': dict(
         text='Same program space as C05: the discovered signature and provenance are compared with the value obtained through the public algebra (specifiers.forwards + merge) from the generator\'s ground truth; programs whose written call can never succeed (z3: no call shape accepted) may also yield the plain signature.',
         note='Bounds as C05. Differential between two routes through the real code; the solver explores the grammar exhaustively within the bound and decides the impossible-call escape.' + TRUST,
         ref='4/C06'),
     'C07': dict(
-        text='(a) a table of adversarial sources (55 statement constructs x 7 function kinds x forwarding call on/off, 50 special objects (mock-like catch-all __getattr__ objects included) incl. builtins, C callables, classes, partials, uncallable partials) and (b) a finite corpus of callables walked from importable modules: the three retrieval entry points must return an UpgradedSignature exactly when inspect.signature returns and raise the same exception type otherwise; for plain functions z3 decides over all call shapes that the result only narrows the own def-list; (c) the Sphinx hook returns the evaluated signature strings and never raises on a fixture module.',
+        text='(a) a table of adversarial sources (55 statement constructs x 7 function kinds x forwarding call on/off, 65 special objects (mock-like catch-all __getattr__ objects, methods forwarding a star attribute and factory-made closures included) incl. builtins, C callables, classes, partials, uncallable partials) and (b) a finite corpus of callables walked from importable modules: the three retrieval entry points must return an UpgradedSignature exactly when inspect.signature returns and raise the same exception type otherwise; for plain functions z3 decides over all call shapes that the result only narrows the own def-list; (c) the Sphinx hook returns the evaluated signature strings and never raises on a fixture module.',
         note='Bounds: quick = every single and ordered pair of the 55 constructs, 21 modules (~700 callables), 27 fixture names; thorough = the same pairs, ~120 modules (~7 400 callables). The corpus part is a finite enumeration: the solver decides only the call dimension there.' + TRUST,
         ref='4/C07'),
     'C08': dict(
         text='A well-formedness predicate on result.sources (keys == parameters + "+depths", lists non-empty and duplicate-free, every source has a depth and itself declares the name, exact source sets for merge/embed on role-consistent inputs, depth 0 outermost / chain position inside, wrapper objects replacing wrapped functions) evaluated on every result of the algebra over the universe (inner stars named like the outer\'s included), on every program of the forwarding grammar and on the corpus.',
-        note='Bounds: quick = pairs <=2 named in total, the quick grammar of C05/C06, 21 modules; thorough = <=3 named with triples, thorough grammar, ~120 modules. No call-shape query: assertions on concrete results along solver-enumerated paths.' + TRUST,
+        note='Bounds: quick = pairs <=2 named in total, merge triples <=2 named, the quick grammar of C05/C06, 21 modules; thorough = <=3 named with triples, thorough grammar, ~120 modules. No call-shape query: assertions on concrete results along solver-enumerated paths.' + TRUST,
         ref='4/C08'),
     'C09': dict(
         text='Exactness of the real merge on name-aligned role-consistent pairs (two unsat queries per pair over all call shapes, raise <=> no common call), unary/idempotence/neutral-element/round-trip laws on all signatures, fold law on role-consistent triples.',
@@ -60,7 +60,7 @@ CLAIMED = {
         note='Bounds: quick = signatures K<=2, direct calls on K<=2 for all kwoargs/posoargs assignments, bound calls on 2-parameter methods for all forms; thorough = K<=3 and 3 positional-or-keyword parameters.' + TRUST,
         ref='4/C12'),
     'C13': dict(
-        text='Stacks of 1..D layers built with wrappers.decorator / wrapper_decorator (own parameter none / keyword-only / positional) around every function of the universe, as function, method and staticmethod: z3 decides over all call shapes that the signature reported by sigtools.signature and by inspect.signature only accepts calls that every layer and the decorated function accept (ChainExec), the decorated object is really called on symbolic values and compared with the hand-written composition (results and propagated exceptions), binding removes the first parameter, wrappers.wrappers lists the layers; Combination: result equals the chained call, merged signature sound.',
+        text='Stacks of 1..D layers built with wrappers.decorator / wrapper_decorator (own parameter none / keyword-only / positional) around every function of the universe, as function, method and staticmethod: z3 decides over all call shapes that the signature reported by sigtools.signature and by inspect.signature only accepts calls that every layer and the decorated function accept (ChainExec), the decorated object is really called on symbolic values and compared with the hand-written composition (results and propagated exceptions), binding removes the first parameter, wrappers.wrappers lists the layers; Combination (flat, nested, with repeated functions): result equals the chained call, merged signature sound.',
         note='Bounds: quick = K<=1, D<=2 for signatures, D=1 for calls on all placements plus D=2 stacks as methods, Combination of <=3 functions with <=2 named in total; thorough = K<=2, D<=3.' + TRUST + ' Preconditions from the property: distinct own/decorated names, some call executes.',
         ref='4/C13'),
     'C14': dict(
@@ -76,8 +76,8 @@ CLAIMED = {
         note='Bounds: (a) pairs <=2 named in total (forwards <=1), singles K<=2; (b) the listed scenarios, one fault per retrieval, crossings intercepted at _util.funcsigs/_util.inspect/_util.ast/bind_partial/user forger/user getter. Asynchronous exceptions are outside the fault model.' + TRUST,
         ref='4/C16'),
     'C18': dict(
-        text='(a) every permutation of admissible applications of kwoargs/posoargs/autokwoargs/annotate gives the same advertised signature and the same call behaviour on symbolic values; (b) every history of <=L operations {retrieve on instance/class, call, access twice, stack another modifier on the method, drop + gc.collect()} over two instances of classes using each descriptor kind gives history-free results bound to the right instance, and dropped instances are reclaimed (weakref observers, control class).',
-        note='Bounds: quick = functions with <=2 parameters and <=3 applications, histories L<=3; thorough = 3 parameters, L<=5.' + TRUST,
+        text='(a) every permutation of admissible applications of kwoargs/posoargs/autokwoargs/annotate gives the same advertised signature and the same call behaviour on symbolic values; (b) every history of <=L operations {retrieve on instance/class, call, access twice, stack another modifier on the method, drop + gc.collect()} over two instances of classes using each descriptor kind gives history-free results bound to the right instance, and dropped instances are reclaimed (weakref observers, control class); (c) each descriptor kind stacked over classmethod / staticmethod gives the same signature and result through instance, class, subclass and subclass instance in any order of look-ups.',
+        note='Bounds: quick = functions with <=2 parameters and <=3 applications, histories L<=3, look-up sequences <=2; thorough = 3 parameters, L<=5, look-up sequences <=4.' + TRUST,
         ref='4/C18'),
     'C19': dict(
         text='Real functools.partial objects over every function of the universe, every count of bound positionals and ordered bound keyword tuples (foreign included), flat or nested, with SYMBOLIC bound values: z3 decides Accept(R,(m,kw)) <=> Accept(f,(cnt+m,kw+bound)) for both retrieval routes, raise <=> uncallable, and the structural clauses (defaults == bound values by z3 validity); discovery through partial(wrapper, callee).',
